@@ -1196,7 +1196,7 @@ pub(crate) fn get_member_attrs(input: SynDataTypeMember, bark: bool) -> Result<M
             MemberInstruction::As(attr) => {
                 match input {
                     SynDataTypeMember::Field(f) => add_as_type_attrs(f, attr, &mut attrs.attrs),
-                    SynDataTypeMember::Variant(_) => unreachable!("1"),
+                    SynDataTypeMember::Variant(v) => return Err(Error::new(v.ident.span(), "Instruction #[as_type(...)] is not supported for this member.")),
                 };
             },
             MemberInstruction::Lit(attr) => attrs.lit_attrs.push(attr),
